@@ -296,6 +296,8 @@ var umValues = []umVal{
 	{"f1e-45", func() any { return 1e-45 }},
 	{"mapNaN", func() any { return map[string]any{"A": math.NaN()} }},
 	{"listInf", func() any { return []any{1.0, math.Inf(1)} }},
+	{"sliceInt1", func() any { return []int{1} }},
+	{"sliceInt3", func() any { return []int{1, 2, 3} }},
 }
 
 // field names a document may carry, and the keys (keyPool indexes) a definition / custom list may carry
@@ -390,10 +392,10 @@ func pickValueFor(r *Rng, name string) int {
 		"b": {"true", "str"}, "any": {"str", "nil", "f3", "mapP", "redactedBytes", "redacted", "bytes"}, "myint": {"f3", "MyInt(9)", "int(4)", "i5"},
 		"mystr": {"str", "MyStr"}, "p": {"mapP", "mapBadP", "P", "ptrP", "listInts", "mapNaN"}, "ints": {"listInts", "listStr", "mapP", "listChan", "listInf"},
 		"zz": {"nil", "str", "f3", "nil"}, "ierr": {"str", "f3", "nil", "mapP"}, "istr": {"str", "MyStr", "nil", "true"},
-		"msi": {"mapSI", "mapP"}, "arr": {"arr2", "arr3", "listInts"}, "arr3": {"arr2", "arr3"},
+		"msi": {"mapSI", "mapP"}, "arr": {"arr2", "arr3", "listInts", "sliceInt1", "sliceInt3"}, "arr3": {"arr2", "arr3"},
 		"pn": {"int(4)", "f3", "ptrInt", "nilPtrInt", "i5"}, "ps": {"str", "MyStr"}, "pp": {"mapP", "mapBadP", "ptrP"},
 		"pmi": {"MyInt(9)", "int(4)"}, "http_status": {"f3", "str"}, "log_level": {"f3", "str"},
-		"parr": {"arr2", "arr3", "ptrArr2", "listInts"}, "pps": {"nilPtrInt", "ptrInt", "nilPtrStr", "str"},
+		"parr": {"arr2", "arr3", "ptrArr2", "listInts", "sliceInt1", "sliceInt3"}, "pps": {"nilPtrInt", "ptrInt", "nilPtrStr", "str"},
 	}
 	if hs, ok := hints[name]; ok && r.Chance(4, 5) {
 		want := Pick(r, hs)
